@@ -67,6 +67,7 @@ def run(ctx):
     c11.r111(ctx, m)
     from . import callsigs as _cs
     from . import findings3 as _f3
+    _f3.thrift_reader_forms(ctx, 'R10.17', None)
     _f3.read_conversions(ctx, 'R3.28')
     _cs.general_rules(ctx, 'R3', ['core', 'encoding', 'api.ParquetFile.read_row_group_file', 'converted_types', 'writer.convert', 'writer.find_type'])
 
